@@ -541,6 +541,8 @@ func (f *Frame) oblige(kind string, cl *Clause, reach, goal string) *Obligation 
 		c.seenGoal[key] = true
 	}
 	ob := &Obligation{Name: f.obName(kind), Func: c.key, Kind: kind, NDecl: len(c.decls), NFact: len(c.facts), Reach: reach, Goal: goal, Ctx: c, Expect: "unsat", Blk: c.curBlk}
+	ob.Extra = c.pend
+	c.pend = nil
 	if cl != nil {
 		ob.Props = cl.Props
 		ob.Needs = cl.Needs
